@@ -348,7 +348,7 @@ def mi_harness(e):
     for k in list(order) + sorted(C):
         inst0 = C[k](**_values(G.MI_FIELDS[k], 1, counter))
         list(inst0.get_child_nodes()); list(inst0.iter_child_fields()); list(inst0.get_properties()); inst0.children  # noqa: E702
-    target = e.pick(["MFunc", "MEmpty", "MOverride", "MNamed", "MBodied", "MQuoted", "MAnnBase"], "queried_class")
+    target = e.pick(["MFunc", "MEmpty", "MOverride", "MNamed", "MBodied", "MQuoted", "MAnnBase", "MRich"], "queried_class")
     fields = G.MI_FIELDS[target]
     part = e.pick(["children", "properties"], "part")
     variant = e.choice(4, "instance_variant") if part == "children" else 1
